@@ -98,6 +98,13 @@ PLANS["C01"] = dict(
         gen=dict(module="MC_Verifier_C01", cfg=mc_cfg(["Inv_C01", "Inv_Exact", "Inv_Consistent", "Inv_Emit"], extra=["PROPERTY Prop_ErrSticky"]), select=take_all),
         drive=dict(driver="verifier"),
         validate=dict(module="Trace_Verifier", cfg=trace_cfg(["verdict", "outcome"])),
+    ), dict(
+        # the convenience entry point notation.VerifyBlob reads the blob itself: readers of every manner, one failing part-way
+        name="blob-readers",
+        gen=dict(module="MC_Notation_C07", cfg=lambda tier, seed: mc_cfg(["Inv_C07", "Inv_Emit"], consts=['Keys = {"EC-256", "EC-384", "RSA-2048"}']),
+                 select=lambda cases, tier, seed: [c for c in cases if c["in"]["api"] == "blob"]),
+        drive=dict(driver="roundtrip"),
+        validate=dict(module="Trace_NotationRT", cfg=trace_cfg(), only_rules=["broken-reader", "no-panic"]),
     )],
 )
 
